@@ -99,7 +99,8 @@ TLateQuery ==
     /\ Fail(t, l, IF result = <<"exc", "Timeout">> THEN "NoQueryAfterExpiry"
                   ELSE IF result = <<"exc", "NoNameservers">> THEN "BrokenNeverAskedAgain"
                   ELSE IF result = <<"exc", "NXDOMAIN">> THEN "CandidateOrder" ELSE "ResultClass")
-TEarlyEnd == phase \in {"query", "sleep"} /\ IsOp("end") /\ Fail(t, l, "ResultClass")
+TEarlyEnd == /\ phase \in {"query", "sleep"} /\ IsOp("end")
+             /\ Fail(t, l, IF phase = "query" /\ last = "retrytcp" THEN "TruncatedRetry" ELSE "ResultClass")
 (* the code asked for more than the script holds, i.e. went on after the specification had ended *)
 TExhausted == IsOp("exhausted") /\ Fail(t, l, IF phase = "done" /\ result = <<"exc", "Timeout">> THEN "NoQueryAfterExpiry"
                                               ELSE "Termination")
